@@ -139,11 +139,11 @@ fn main() {
         let max_len = if thorough { 60 } else { 36 };
         let max_probes = if thorough { 3 } else { 2 };
         let rule = "nontrivial = frames of persistent lanes were checked against store operations, and a restart handed a non-empty stored state back to a lane";
-        let n = session.args.budget(2500, 40000);
+        let n = session.args.budget(25000, 250000);
         session.part("runtime-persist/mixed", rule, false, n, |_case, rng, out| {
             run_case(rng, out, Focus::Mixed, generations, max_len, max_probes);
         });
-        let n = session.args.budget(2500, 40000);
+        let n = session.args.budget(25000, 250000);
         session.part("runtime-persist/dynamic", rule, false, n, |_case, rng, out| {
             run_case(rng, out, Focus::Dynamic, generations, max_len, max_probes);
         });
